@@ -88,6 +88,7 @@ type Store struct {
 	Log   *errLog
 	RBF   *countingRBF
 	Gate  *gatedLBM
+	VC    *digest.ExistenceCache // the data integrity validation cache, if the store has one
 
 	// FreeHits collects device accesses that touched a block which the allocator had on its free list at that
 	// moment (C04: space is not handed out while a reader or writer of it is still active).
@@ -105,8 +106,8 @@ func NewStore(cfg Config) *Store {
 		rbf = blobstore.ACReadBufferFactory
 	} else if cfg.VCache {
 		// as new_blob_access.go does when a data integrity validation cache is configured
-		rbf = blobstore.NewValidationCachingReadBufferFactory(rbf,
-			digest.NewExistenceCache(clock.SystemClock, digest.KeyWithInstance, 1000, time.Hour, eviction.NewLRUSet[string]()))
+		s.VC = digest.NewExistenceCache(clock.SystemClock, digest.KeyWithInstance, 1000, time.Hour, eviction.NewLRUSet[string]())
+		rbf = blobstore.NewValidationCachingReadBufferFactory(rbf, s.VC)
 	}
 	s.RBF = &countingRBF{base: rbf}
 	var base local.BlockAllocator
